@@ -200,7 +200,7 @@ def _mk_tables(ncol, tiers, timeout, wmax):
           outside="more than 3 columns / 3 rows; boxes other than ASCII for the content clause (border widths for every box: "
                   "C07-box-rows-*)")
     def h(e):
-        nrow = int(e.mk("rows", 0, 3))
+        nrow = int(e.mk("rows", 0, 3 if wmax > 40 else 2))
         hdr = bool(e.mkbool("header"))
         pl, pr = int(e.mk("pad_left", 0, 2)), int(e.mk("pad_right", 0, 2))
         expand = bool(e.mkbool("expand"))
@@ -212,5 +212,5 @@ def _mk_tables(ncol, tiers, timeout, wmax):
 
 
 for _n in (1, 2, 3):
-    _mk_tables(_n, ("quick",), 900, 36)
+    _mk_tables(_n, ("quick",), 900, 22 + 4 * _n)
     _mk_tables(_n, ("thorough",), 3400, 70)
